@@ -66,6 +66,7 @@ type c16Msg struct {
 	Kind    string `json:"kind"` // hello | data | eof | ping | udp | unknown-data | dup-hello | disconnect
 	Payload string `json:"payload,omitempty"`
 	Style   int    `json:"style"` // 0 = type, size, body as three writes; 1 = one write; 2 = body split over two writes
+	Raddr   string `json:"raddr,omitempty"` // udp: remote address of this datagram
 }
 
 type c16Conn struct {
@@ -173,7 +174,10 @@ func genC16(seed uint64, idx int, tier string) *Scenario {
 	if r.Chance(0.4) {
 		a := Actor{Kind: "vconn", Name: "udp", Src: "198.51.100.77:5000", Dst: "192.0.2.1:5353"}
 		for k := r.Range(1, 6); k > 0; k-- {
-			ej, _ := json.Marshal(c16Msg{Kind: "udp", Payload: hex.EncodeToString([]byte(fmt.Sprintf("dgram-%d-%s", k, r.word(0, 50)))), Style: style()})
+			// every datagram has its own remote address (the reply must come back under exactly that one)
+			m := c16Msg{Kind: "udp", Payload: hex.EncodeToString([]byte(fmt.Sprintf("dgram-%d-%s", k, r.word(0, 50)))), Style: style()}
+			m.Raddr = fmt.Sprintf("198.51.100.%d:%d", 70+k, 5000+k)
+			ej, _ := json.Marshal(m)
 			a.Ops = append(a.Ops, Op{K: "agentmsg", Exp: ej})
 		}
 		sc.Actors = append(sc.Actors, a)
@@ -329,6 +333,7 @@ func runC16(t *testing.T, sc *Scenario) Result {
 	}
 	helloSent := map[string]bool{}
 	udpSent := [][]byte{}
+	udpFrom := map[string]string{} // datagram payload -> the remote address it was announced with
 	msgs := 0
 	disconnected := false
 	var hsErr string
@@ -402,8 +407,13 @@ func runC16(t *testing.T, sc *Scenario) Result {
 			case "ping":
 				ac.send(agent.TypePing, agent.Ping{}, m.Style)
 			case "udp":
-				ac.send(agent.TypeReadWriteUDP, agent.ReadWriteUDP{Laddr: mustUDPAddr(a.Dst), Raddr: mustUDPAddr(a.Src), Payload: pl}, m.Style)
+				ra := a.Src
+				if m.Raddr != "" {
+					ra = m.Raddr
+				}
+				ac.send(agent.TypeReadWriteUDP, agent.ReadWriteUDP{Laddr: mustUDPAddr(a.Dst), Raddr: mustUDPAddr(ra), Payload: pl}, m.Style)
 				udpSent = append(udpSent, pl)
+				udpFrom[string(pl)] = mustUDPAddr(ra).String()
 			}
 			if discAfter > 0 && msgs >= discAfter {
 				synctest.Wait()
@@ -552,6 +562,22 @@ func runC16(t *testing.T, sc *Scenario) Result {
 			}
 		}
 		res.probe("udp-relays-verified", len(w))
+		// the echo of a datagram returns tagged with that datagram's own addresses
+		for _, r := range rx {
+			if r.Kind != "udp" {
+				continue
+			}
+			want, known := udpFrom[string(r.Payload)]
+			if !known {
+				res.Violate("udp-reply-unknown", "agent", fmt.Sprintf("the agent received a UDP reply %q that answers no datagram it relayed", short(string(r.Payload), 40)))
+				return res
+			}
+			if r.Raddr != want {
+				res.Violate("udp-reply-wrong-address", "agent", fmt.Sprintf("the reply to the datagram relayed for %s came back tagged %s -> %s", want, r.Raddr, r.Laddr))
+				return res
+			}
+			res.probe("udp-replies-verified", 1)
+		}
 	}
 	res.probe("messages", msgs)
 	return res
